@@ -22,8 +22,10 @@
    type), C11_tx_history_filter also pf_typed of every pre-built file (a parquet column holds values of its
    footer type) -- statements about pyarrow / parquet, spelled out as hypotheses.
    C11_tx_fault_fails_closed is DERIVED from flags regenerated from the source (Gen/GenSchema.v:
-   resolve_refresh_propagates, marker_failure_propagates, queue_failure_propagates): its proof computes with
-   their current values. *)
+   resolve_refresh_propagates, marker_failure_propagates, queue_failure_propagates, files_exists_failure_propagates
+   and, for the GC-protection step of a pre-built-file call, adopt_marker_failure_propagates,
+   adopt_listing_failure_propagates, adopt_refused_while_collecting, adopt_recheck_failure_propagates,
+   adopt_cleanup_on_failure): its proof computes with their current values. *)
 From Coq Require Import ZArith QArith List Bool Lia.
 Require Import DS.Model.Value DS.Gen.GenPrune DS.Model.Prune DS.Gen.GenSchema DS.Model.Schema DS.Model.SchemaTx.
 Require Import DS.Model.OpenBase DS.Gen.GenOpen DS.Model.SchemaOpen.
@@ -137,27 +139,44 @@ Print Assumptions C11_fits_representable.
    caught by the caller / commit, rollback or nothing ================= *)
 
 (* A call that raises (tag <> 0) -- append_data refused for any reason, append_files refused at ANY of its
-   files -- adds NOTHING to the transaction's queue, and no call touches the schema or the snapshot list. *)
-Theorem C11_tx_rejected_call_no_trace : forall (conv : catype -> pyval -> option pyval) (w : world) (h : Z) (c : call)
+   files or in its GC-protection step (marker write, announced collection run, existence re-check) -- adds NOTHING
+   to the transaction's queue, and no call touches the schema or the snapshot list.  m: the files the transaction
+   holds in-flight markers for when the call starts (any). *)
+Theorem C11_tx_rejected_call_no_trace : forall (conv : catype -> pyval -> option pyval) (w : world) (m : list Z) (h : Z) (c : call)
     (w' : world) (wr : list Z) (t : Z) (added : list dfile),
-  call_step conv w h c = (w', wr, t, added) ->
+  call_step conv w m h c = (w', wr, t, added) ->
   w_schema w' = w_schema w /\ w_snaps w' = w_snaps w /\ (t <> 0 -> added = []).
 Proof. exact call_rejected. Qed.
 Print Assumptions C11_tx_rejected_call_no_trace.
 
 (* Storage faults during a call fail CLOSED.  While the table metadata cannot be read, append_data and
    append_files raise at once and change nothing -- an unreadable schema is never taken for "no persisted schema,
-   nothing to enforce"; and under any fault window (metadata unreadable from the start, marker writes failing,
-   metadata unreadable once the call has written its data file) an append_data call never succeeds and queues
-   nothing, whatever its schema argument.
-   Derived, not defined: Model/SchemaTx.v call_step decides what a failing refresh() / marker write / queueing
-   leads to by the flags Gen/GenSchema.v regenerates from the source on every run (is the failing operation
-   outside every `try`?); with a handler around refresh() the model takes the "no persisted schema" path and
-   this proof (by computation on the flags) breaks. *)
-Theorem C11_tx_fault_fails_closed : forall (conv : catype -> pyval -> option pyval) (w : world) (h : Z),
-  (forall arg recs, call_step conv w h (CRecordsF FBefore arg recs) = (w, [], tag_storage_fault, []))
-  /\ (forall fs, call_step conv w h (CFilesF FBefore fs) = (w, [], tag_storage_fault, []))
-  /\ (forall ft arg recs w' wr t added, call_step conv w h (CRecordsF ft arg recs) = (w', wr, t, added) -> t <> 0 /\ added = []).
+   nothing to enforce"; under any window an append_data call can meet (metadata unreadable from the start, marker
+   writes failing, metadata unreadable / existence checks failing once the call has written its data file) it
+   never succeeds and queues nothing, whatever its schema argument; the other windows (they belong to the adoption
+   of pre-built files) leave it as it is without them.
+   The GC-protection step of append_files: a call with at least one pre-built file the transaction holds no marker
+   for yet (unprotected m fs <> []) that meets failing marker writes, a failing listing of the announced collection
+   runs, an announced run, or a failing existence re-check NEVER succeeds: it raises, queues nothing, writes no data
+   file, leaves schema, snapshot list and stored files as they were -- and leaves none of the markers it wrote.
+   A window that is none of these, or a call with nothing left to protect, behaves as without the window.
+   Derived, not defined: Model/SchemaTx.v call_step decides what a failing refresh() / marker write / queueing /
+   listing / re-check leads to by the flags Gen/GenSchema.v regenerates from the source on every run (is the failing
+   operation outside every `try`, or only inside `try` blocks whose handlers re-raise?); with a handler around
+   refresh() the model takes the "no persisted schema" path, with a handler that swallows a failure of the protection
+   step the model queues the unprotected file, and this proof (by computation on the flags) breaks. *)
+Theorem C11_tx_fault_fails_closed : forall (conv : catype -> pyval -> option pyval) (w : world) (m : list Z) (h : Z),
+  (forall arg recs, call_step conv w m h (CRecordsF FBefore arg recs) = (w, [], tag_storage_fault, []))
+  /\ (forall fs, call_step conv w m h (CFilesF FBefore fs) = (w, [], tag_storage_fault, []))
+  /\ (forall ft arg recs w' wr t added, hits_records ft = true ->
+        call_step conv w m h (CRecordsF ft arg recs) = (w', wr, t, added) -> t <> 0 /\ added = [])
+  /\ (forall ft arg recs, hits_records ft = false -> call_step conv w m h (CRecordsF ft arg recs) = call_step conv w m h (CRecords arg recs))
+  /\ (forall ft fs w' wr t added, hits_protection ft = true -> unprotected m fs <> [] ->
+        call_step conv w m h (CFilesF ft fs) = (w', wr, t, added) ->
+        t <> 0 /\ added = [] /\ wr = [] /\ w_schema w' = w_schema w /\ w_snaps w' = w_snaps w /\ w_store w' = w_store w
+        /\ call_marks w m h (CFilesF ft fs) = [])
+  /\ (forall ft fs, hits_protection ft = false -> ft <> FBefore -> call_step conv w m h (CFilesF ft fs) = call_step conv w m h (CFiles fs))
+  /\ (forall ft fs, unprotected m fs = [] -> ft <> FBefore -> call_step conv w m h (CFilesF ft fs) = call_step conv w m h (CFiles fs)).
 Proof. exact fault_fails_closed. Qed.
 Print Assumptions C11_tx_fault_fails_closed.
 
@@ -426,10 +445,29 @@ Example C11_tx_nonvacuous :
   /\ file_may_match [(1, VInt 100)] [(1, VInt 200)] (ids_of ex_fields) [ex_a_is_5] = false
   /\ Forall (txn_Q pf_typed) [ex_tx1; ex_tx2; ex_tx3]
   (* storage faults: the regenerated flags say that a failing refresh() / marker write reaches the caller *)
-  /\ (resolve_refresh_propagates, marker_failure_propagates, queue_failure_propagates) = (true, true, true)
-  /\ call_step ex_conv (init (Some ex_ts)) 0 (CRecordsF FAfterWrite None [ex_rec (PV (VInt 7)) (PV VNull)])
-     = (fst (fst (fst (call_step ex_conv (init (Some ex_ts)) 0 (CRecordsF FAfterWrite None [ex_rec (PV (VInt 7)) (PV VNull)])))),
-        [0], tag_storage_fault, []).
+  /\ (resolve_refresh_propagates, marker_failure_propagates, queue_failure_propagates, files_exists_failure_propagates) = (true, true, true, true)
+  /\ call_step ex_conv (init (Some ex_ts)) [] 0 (CRecordsF FAfterWrite None [ex_rec (PV (VInt 7)) (PV VNull)])
+     = (fst (fst (fst (call_step ex_conv (init (Some ex_ts)) [] 0 (CRecordsF FAfterWrite None [ex_rec (PV (VInt 7)) (PV VNull)])))),
+        [0], tag_storage_fault, [])
+  (* the GC-protection step of append_files, as regenerated: every failure in it reaches the caller, the markers the
+     call wrote are removed.  Two well-formed files: without a window they are queued and leave two markers; failing
+     marker writes / a failing listing / a failing re-check raise as storage faults (7), an announced collection run
+     refuses the adoption (6) -- nothing queued, no marker left; the hypothesis `unprotected m fs <> []` is needed: a
+     call whose files this transaction has already adopted (m = [51; 52]) has nothing to protect and is accepted
+     under the same windows; a transaction whose first adoption was refused under a window commits the second only *)
+  /\ (adopt_marker_failure_propagates, adopt_listing_failure_propagates, adopt_refused_while_collecting,
+      adopt_recheck_failure_propagates, adopt_cleanup_on_failure) = (true, true, true, true, true)
+  /\ map (fun ft => let c := match ft with Some f => CFilesF f [ex_good 51; ex_good 52] | None => CFiles [ex_good 51; ex_good 52] end in
+                    match call_step ex_conv (init (Some ex_ts)) [] 0 c with
+                    | (_, wr, t, added) => (wr, t, map df_id added, call_marks (init (Some ex_ts)) [] 0 c) end)
+         [None; Some FMarker; Some FAnnounce; Some FCollecting; Some FRecheck; Some FAfterWrite]
+     = [([], 0, [51; 52], [51; 52]); ([], 7, [], []); ([], 7, [], []); ([], 6, [], []); ([], 7, [], []); ([], 0, [51; 52], [51; 52])]
+  /\ map (fun f => match call_step ex_conv (init (Some ex_ts)) [51; 52] 0 (CFilesF f [ex_good 51; ex_good 52]) with
+                   | (_, _, t, added) => (t, map df_id added) end) [FMarker; FAnnounce; FCollecting; FRecheck]
+     = [(0, [51; 52]); (0, [51; 52]); (0, [51; 52]); (0, [51; 52])]
+  /\ map (map df_id) (w_snaps (run_tx ex_conv (init (Some ex_ts))
+        {| t_handle := 0; t_calls := [CFilesF FAnnounce [ex_good 51; ex_good 52]; CFiles [ex_good 53]; CFilesF FMarker [ex_good 53]];
+           t_end := EndCommit true |})) = [[53; 53]].
 Proof.
   split; [vm_compute; reflexivity|]. split; [vm_compute; reflexivity|]. split; [vm_compute; reflexivity|].
   split; [vm_compute; reflexivity|]. split; [vm_compute; reflexivity|]. split; [vm_compute; reflexivity|].
@@ -437,7 +475,8 @@ Proof.
   split.
   { repeat constructor; simpl; auto; intros row Hrow c;
       repeat (destruct Hrow as [<-|Hrow]; [unfold cell; simpl; repeat (destruct (Z.eqb c _); [reflexivity|]); reflexivity|]); contradiction. }
-  split; [reflexivity|]. vm_compute. reflexivity.
+  split; [reflexivity|]. split; [vm_compute; reflexivity|]. split; [reflexivity|].
+  split; [vm_compute; reflexivity|]. split; [vm_compute; reflexivity|]. vm_compute. reflexivity.
 Qed.
 
 (* Non-vacuity for list columns and record keys: the table {a: long (id 1); l: list<long> (id 2)}.  [1, 2.0] is
